@@ -64,6 +64,7 @@ type VCOpts struct {
 	AutoContract func(fn *ssa.Function) *Contract // default contracts (e.g. cursor contract) when none is written
 	SafetyKinds map[string]bool // restrict safety kinds; nil = all
 	ProtectParams bool
+	NoContents  bool // slice/string contents are not modelled (families are havoced instead): for properties about scalar state
 	GhostInit map[string]string // ghost scalar state vars with sort -> initial term handled by property driver
 }
 
